@@ -429,6 +429,25 @@ def run(ctx):
         "other-before-ligand": [pep, other(["CAB", "Z9"]), lig1, wat],
         "ligand-first": [lig1, pep + wat],
     }
+    # a disordered ligand: every atom (or some) in two alternate locations, the later one better occupied
+    def disordered(lig, interleaved, part=1.0):
+        a_, b_ = [], []
+        for k, a in enumerate(lig):
+            if k < part * len(lig):
+                a_.append(dict(a, alt="A", occ=0.4))
+                b_.append(dict(a, alt="B", occ=0.6, xyz=a["xyz"] + np.array([0.3, -0.2, 0.25])))
+            else:
+                a_.append(dict(a))
+        if interleaved:
+            out_ = []
+            for a in a_:
+                out_.append(a)
+                out_ += [b for b in b_ if b["name"] == a["name"]]
+            return out_
+        return a_ + b_
+    layouts["ligand-alternate-locations"] = [pep + wat, disordered(lig1, True)]
+    layouts["ligand-alternate-locations-in-blocks"] = [pep + wat, disordered(lig1, False)]
+    layouts["ligand-partly-disordered"] = [pep + wat, disordered(lig1, True, 0.5), other(["S1", "O1"])]
     cjobs = [{"name": k, "pdb": gen.pdb_text(v), "mol2": mol2, "opts": o}
              for k, v in layouts.items() for o in ([[]] if ctx.quick else [[], ["--noopt"], ["--whitespace"]])]
     # a ligand that carries the chain, number and some atom names of a protein residue (a docked ligand numbered from 1)
